@@ -1,5 +1,5 @@
 CONSTANTS
-  Zones <- ZonesCache
+  Zones <- ZonesCacheQ
   Families <- BothFam
   MaxDepth = 2
   MaxSub = 3
@@ -10,10 +10,11 @@ CONSTANTS
   MaxClock = 3
   MaxAdmits = 2
   AdmitSub = 3
+  MinimalProofs = TRUE
   EmitCases = FALSE
 INIT Init
 NEXT Next
 VIEW View
 CHECK_DEADLOCK FALSE
 INVARIANTS TypeOK
-PROPERTIES SynthesisedIsTrue NoStaleSynthesis
+PROPERTIES SynthesisedIsTrue
